@@ -72,6 +72,7 @@ class SymEval:
         self.ctor_forward = ctor_forward      # callback: (ctor body, [arg values]) -> value
         self.depth = 0
         self.divisors = []                    # every value something was divided by (syntactically) since the last reset
+        self.detach = False                   # R45: a number taken out of an array by position becomes an atom of its own
         self.uninterp = False                 # R34/R35: shape-changing array functions and callable fields become opaque atoms
 
     # ------------------------------------------------------------ environment
@@ -219,6 +220,8 @@ class SymEval:
             if base[0] == "vecA" and isinstance(i, int) and 0 <= i < len(base[1]):
                 return self.force(base[1][i])
             if base[0] == "v":
+                if self.detach and not isinstance(base[1], PW):
+                    return ("s", self.alg.atom("elem[%r]" % base[1]))
                 return ("s", base[1])          # one element of an element-wise vector
             if base[0] == "dims" and isinstance(i, int) and self.uninterp:
                 return ("s", self.alg.atom("dim%d[%s]" % (i, base[1])))
@@ -458,6 +461,9 @@ class SymEval:
             if cal.get("resolved_local"):
                 return self.local_call(e, env, [a])
             return self.map1(a, lambda v: -v)
+        if self.detach and r.startswith("<%s as core::ops::index::Index<" % ARRAY) and args:
+            a = self.ev(args[0], env)
+            return ("s", self.alg.atom("elem[%r]" % a[1])) if a[0] == "arr" and not isinstance(a[1], PW) else ("unk", "element of %s" % a[0])
         if r == "corgi::array::Array::values" and args:
             a = self.ev(args[0], env)
             return ("v", a[1]) if a[0] == "arr" else ("unk", "values() of %s" % a[0])
@@ -506,6 +512,8 @@ class SymEval:
             if base[0] == "vecA" and isinstance(i, int) and 0 <= i < len(base[1]):
                 return self.force(base[1][i])
             if base[0] == "v":
+                if self.detach and not isinstance(base[1], PW):
+                    return ("s", self.alg.atom("elem[%r]" % base[1]))
                 return ("s", base[1])
             return ("unk", "index of %s" % base[0])
         if r == "corgi::array::Array::dimensions":
